@@ -78,11 +78,11 @@ func stmtQueryFields(t *types.Named) []stmtQueryField {
 	return out
 }
 
-// stmtTypes: the driver's statement types (the receivers of the two query anchors' types, by name as in anchors.go).
+// stmtTypes: the driver's statement types (the implementers of driver.Stmt, resolved by shape in rules_ag10.go).
 func stmtTypes(c *Ctx) []*types.Named {
 	var out []*types.Named
-	for _, tn := range []string{"fileStmt", "grpcStmt"} {
-		if t := c.w.namedType(pkgDriver, tn); t != nil {
+	for _, t := range []*types.Named{c.a.FileStmtT, c.a.GrpcStmtT} {
+		if t != nil {
 			out = append(out, t)
 		}
 	}
